@@ -3,6 +3,10 @@ CONSTANTS
   Threads = {1, 2}
   MaxCalls = 2
   Hint = FALSE
+  Strats <- StratsAll
+  Axes <- Axes4
+  Datas <- Datas3
+  Ids <- OneId
 INVARIANTS OnlyValidBuilt SameQuestionSameAnswer ElementsAgree AnsweredIffInRange FiniteNeverRejected ShapeOk BadBufferNeverOk KnotsReproduced PeriodicFunction
 PROPERTY Immutable
 CHECK_DEADLOCK FALSE
